@@ -10,7 +10,8 @@ func init() {
 		ID: "C10", Level: "fault_enumeration",
 		Rule: "case = one full-application history through ABCI: generated valid emission configuration (amounts < 10^28..10^36, periods/steps >= 1s, multiplier <= 1) x generated valid sub-distributor configuration (incl. a permanently blocked destination and a locked-coin source) x 20-45 blocks (thorough 40-90) hugging schedule and vesting boundaries, " +
 			"with vesting/bank/staking transactions, signature messages, and governance updates at random points: all 2+4+1 update messages incl. start/end times moved into past/future, periods dropped/appended, shares/burn changed, sub-distributors replaced, odd denominations. At a random height the state is exported, a fresh application is initialised from it (InitialHeight = exported height) and both replicas keep receiving the same blocks. " +
-			"Oracle: no panic escapes BeginBlock/EndBlock/Commit of any replica (recover() around the ABCI calls, stack recorded; key = innermost repository frame). Non-trivial: >=1 accepted update, the export/import happened and >=1 block burned coins before it. Distinct by configuration+history hash.",
+			"Oracle: no panic escapes BeginBlock/EndBlock/Commit of any replica (recover() around the ABCI calls, stack recorded; key = innermost repository frame). Non-trivial: >=1 accepted update, the export/import happened and >=1 block burned coins before it. Distinct by configuration+history hash." +
+			" The shared workload also grants fee allowances and authorizations to module addresses of the custom modules (x/feegrant and x/authz create the grantee's account), submits legacy parameter-change proposals and real governance proposals.",
 		Assumptions:   []string{"magnitude guards of the property are enforced by the generator", "fault dimension: persistent natural transfer failures (blocked destination, locked source), update timing and export/restart point are enumerated by seed, not exhaustively"},
 		Cases:         func(t string) int { return tierN(t, 480, 6000) },
 		MinNontrivial: func(t string) int { return tierN(t, 50, 600) },
